@@ -30,7 +30,7 @@ _BI_TB = ["the real `copia` binary built from the tree under test, run in a sand
 
 PROPS = {
     "C01": dict(
-        modules=["Copia.Props.C01", "Copia.Props.C01b", "Copia.Props.C01c", "Copia.Props.C01d", "Copia.Props.C05b", "Copia.Props.C01e"], namespaces=["Copia.C01"], runner="rust", needs_cli=True,
+        modules=["Copia.Props.C01", "Copia.Props.C01b", "Copia.Props.C01c", "Copia.Props.C01d", "Copia.Props.C05b", "Copia.Props.C01e", "Copia.Props.C01f"], namespaces=["Copia.C01"], runner="rust", needs_cli=True,
         assumptions=_DELTA_ASSUME, trusted_base=_DELTA_TB,
         level_text="Kernel-checked theorems for ALL basis/source byte strings and ALL positive block sizes: patch(basis, delta(signature(basis), src)) = ok src "
                    "(or H collides on an explicit pair), delta well-formedness (declared size/checksum, lengths sum, copies inside the basis), sync_files for absent/identical/differing destination. "
@@ -51,7 +51,7 @@ PROPS = {
         technique="Lean 4 proof (run invariant by induction over the plan, case analysis over the reconcile table) + executable-model correspondence on histories + version-survival oracle",
     ),
     "C06": dict(
-        modules=["Copia.Props.C06", "Copia.Props.C02b", "Copia.Props.C02c", "Copia.Props.C18b", "Copia.Props.C08e", "Copia.Props.C06c"], namespaces=["Copia.C06"], runner="bb", bb_module="bb_bisync",
+        modules=["Copia.Props.C06", "Copia.Props.C02b", "Copia.Props.C02c", "Copia.Props.C18b", "Copia.Props.C08e", "Copia.Props.C06c", "Copia.Props.C06d"], namespaces=["Copia.C06"], runner="bb", bb_module="bb_bisync",
         assumptions=_BI_ASSUME, trusted_base=_BI_TB,
         level_text="Kernel-checked WHOLE-RUN theorems for the model of `copia bisync`, for every pair of trees and every archive, under NoNameClash: `converges` (the run completes; afterwards A and B hold the same content at every path and the archive written records exactly that tree) "
                    "and `second_run_noop` (the next run plans nothing, reports no conflict and leaves both trees as they are), `conflict_outcome` (a divergent edit ends on both sides as the greater-hash version at the path and the other at the conflict-copy name), `swap_run` (naming the roots the other way round leaves the same bytes at every path on both sides, for a total antisymmetric hash order). For all maps: a converged pair with a matching record plans nothing; swapping the roots mirrors every decision. "
@@ -61,7 +61,7 @@ PROPS = {
         technique="Lean 4 proof (run + archive invariants by induction over the plan) + executable-model correspondence on histories + convergence/idempotence/independence oracles",
     ),
     "C07": dict(
-        modules=["Copia.Props.C07", "Copia.Props.C07b", "Copia.Props.C02c", "Copia.Props.C18b", "Copia.Props.C07c"], namespaces=["Copia.C07"], runner="bb", bb_module="bb_bisync",
+        modules=["Copia.Props.C07", "Copia.Props.C07b", "Copia.Props.C02c", "Copia.Props.C18b", "Copia.Props.C07c", "Copia.Props.C07d"], namespaces=["Copia.C07"], runner="bb", bb_module="bb_bisync",
         assumptions=_BI_ASSUME + ["`Archive::load` = none for every fault kind is checked on the real binary (SAFE banner vs the harness's strict-JSON prediction), not proved (serde_json is not modelled)"],
         trusted_base=_BI_TB,
         level_text="Kernel-checked theorems for ALL tree pairs: with an untrusted archive the plan contains no delete, no non-delete action ever removes a path, hence a whole run (even one that stops on an I/O error) "
@@ -71,7 +71,7 @@ PROPS = {
         technique="Lean 4 proof (induction over the plan) + fault-injection correspondence on the real archive file",
     ),
     "C04": dict(
-        modules=["Copia.Props.C04", "Copia.Props.C04b", "Copia.Props.C04c", "Copia.Props.C06c"], namespaces=["Copia.C04"], runner="bb", bb_module="bb_oneway",
+        modules=["Copia.Props.C04", "Copia.Props.C04b", "Copia.Props.C04c", "Copia.Props.C06c", "Copia.Props.C06d", "Copia.Props.C04d", "Copia.Props.C04e"], namespaces=["Copia.C04"], runner="bb", bb_module="bb_oneway",
         assumptions=_OW_ASSUME, trusted_base=_OW_TB + ["bash's ANSI-C quoting ($'…') as modelled by Quote.ansiC: named escapes decoded, unknown escapes kept, numeric/control escapes outside the model (never produced by the escaping chain — proved); cross-checked against the installed bash on every run"],
         level_text="Kernel-checked theorems for ALL trees/flags over the run model: destination after a run = (deleted if in delete; source entry with the source's whole-second mtime if in transfer; untouched otherwise), "
                    "nothing outside the plan is touched — also when ANY subset of the transfers and deletes fails (`partial_failure_stays_in_plan`: the non-zero-exit clause) —, an empty source without --delete is a no-op, and ORDER INDEPENDENCE: any completion order of the parallel transfers/deletes gives the same destination. "
@@ -82,7 +82,7 @@ PROPS = {
         technique="Lean 4 proof (lookup characterisation of folds, permutation invariance) + black-box correspondence in three directions",
     ),
     "C13": dict(
-        modules=["Copia.Props.C13", "Copia.Props.C13b", "Copia.Props.C13c", "Copia.Props.C13d", "Copia.Props.C11c"], namespaces=["Copia.C13"], runner="bb", bb_module="bb_hubsync",
+        modules=["Copia.Props.C13", "Copia.Props.C13b", "Copia.Props.C13c", "Copia.Props.C13d", "Copia.Props.C11c", "Copia.Props.C13e", "Copia.Props.C11d"], namespaces=["Copia.C13"], runner="bb", bb_module="bb_hubsync",
         assumptions=_HUB_ASSUME + ["the hub side is the sequential CAS-Put semantics (its atomicity under concurrency is C03); a local tree with a top-level `.copia` directory is refused by the (repaired) hub and hub-sync reports the error",
                                    "interference is modelled per Put (stale `expected`); an environment that deletes files is outside 'still retrievable'"],
         trusted_base=_HUB_TB + ["tools/sshstub/ssh and tools/sshrelay (pausing relay) as SSH stand-ins"],
@@ -93,7 +93,7 @@ PROPS = {
         technique="Lean 4 proof (loop invariant over the client's file list; CAS lemmas) + black-box runs incl. forced stale listings",
     ),
     "C14": dict(
-        modules=["Copia.Props.C14"], namespaces=["Copia.C14"], runner="bb", bb_module="bb_oneway",
+        modules=["Copia.Props.C14", "Copia.Props.C14b", "Copia.Props.C14c"], namespaces=["Copia.C14"], runner="bb", bb_module="bb_oneway",
         assumptions=_OW_ASSUME, trusted_base=_OW_TB,
         level_text="Kernel-checked theorems for ALL trees/flags: immediately after a run the same command plans no transfer and no delete; a file is sent only if absent or differing in size/whole-second mtime. "
                    "Tie: real immediate second runs in all three directions with mtimes 0, sub-second, year 3000: plan must be 0/0 and both trees byte- and mtime-identical.",
@@ -113,7 +113,7 @@ PROPS = {
         technique="Lean 4 proof (invariant over every prefix of the step list) + strace trace conformance + exhaustive kill-point injection",
     ),
     "C09": dict(
-        modules=["Copia.Props.C09", "Copia.Props.C09b", "Copia.Props.C09c", "Copia.Props.C09d", "Copia.Props.C09e"], namespaces=["Copia.C09"], runner="bb", bb_module="bb_crash9", timeout=3000,
+        modules=["Copia.Props.C09", "Copia.Props.C09b", "Copia.Props.C09c", "Copia.Props.C09d", "Copia.Props.C09e", "Copia.Props.C09f"], namespaces=["Copia.C09"], runner="bb", bb_module="bb_crash9", timeout=3000,
         assumptions=_OW_ASSUME + ["'killed at any instant' = before any libc call of any copia thread (strace injection, per-thread counters); kills inside one write are covered by the staging file being opaque until renamed",
                                   "for push the remote command runs to completion on whatever part of the stream arrived (the property's setting)"],
         trusted_base=_OW_TB + ["strace (signal injection, -b execve)"],
@@ -125,7 +125,7 @@ PROPS = {
         technique="Lean 4 proof (prefix invariant of the delivery steps; stream-cut lemma for the remote command) + kill-point injection in three directions",
     ),
     "C03": dict(
-        modules=["Copia.Props.C03", "Copia.Props.C03b", "Copia.Props.C03c", "Copia.Props.C03d"], namespaces=["Copia.C03"], runner="bb", bb_module="bb_hubconc",
+        modules=["Copia.Props.C03", "Copia.Props.C03b", "Copia.Props.C03c", "Copia.Props.C03d", "Copia.Props.C03e"], namespaces=["Copia.C03"], runner="bb", bb_module="bb_hubconc",
         assumptions=_HUB_ASSUME + ["flock(2) mutual exclusion and release on process death, rename(2) atomic replace, O_TRUNC keeping the inode are trusted kernel semantics",
                                    "the interleaved transition system contains Put and Delete (`refinement`); Get runs beside them as its own call sequence (`Model/HubGet`: open, length, hashing pass, header, streaming pass, any writer steps in between) — `C10.get_reply_is_one_version`: the announced hash and length are those of exactly the bytes streamed, one complete verified version the path held after the request began; List is not claimed atomic",
                                    "staging names are per process (WF.tmp_inj) — true of the repaired code (D6), false of the pinned code"],
@@ -139,7 +139,7 @@ PROPS = {
         technique="Lean 4 proof (inductive invariants + refinement to an atomic CAS map) + schedule-controlled linearizability check against the model",
     ),
     "C10": dict(
-        modules=["Copia.Props.C10", "Copia.Props.C10b", "Copia.Props.C10c", "Copia.Props.C10d"], namespaces=["Copia.C10"], runner="bb", bb_module="bb_hubconc",
+        modules=["Copia.Props.C10", "Copia.Props.C10b", "Copia.Props.C10c", "Copia.Props.C10d", "Copia.Props.C03e"], namespaces=["Copia.C10"], runner="bb", bb_module="bb_hubconc",
         assumptions=_HUB_ASSUME + ["kernel semantics as for C03; 'every instant' = after every scheduling step of the client-paced schedule"],
         trusted_base=_HUB_TB,
         level_text="Kernel-checked inductive invariant over the interleaved system incl. kill transitions: in EVERY reachable state every client-visible path holds initial content or the complete bytes of one Put whose streamed hash equalled its declared hash; "
@@ -150,7 +150,7 @@ PROPS = {
         technique="Lean 4 proof (inductive invariant over all interleavings and kills) + per-step observation of real multi-process schedules",
     ),
     "C11": dict(
-        modules=["Copia.Props.C11", "Copia.Props.C11b", "Copia.Props.C11c"], namespaces=["Copia.C11"], runner="bb", bb_module="bb_hub",
+        modules=["Copia.Props.C11", "Copia.Props.C11b", "Copia.Props.C11c", "Copia.Props.C11d"], namespaces=["Copia.C11"], runner="bb", bb_module="bb_hub",
         assumptions=_HUB_ASSUME, trusted_base=_HUB_TB,
         level_text="Kernel-checked theorems for ALL path strings: a path accepted by safe_join (Rust Path::components semantics) joined onto the root resolves — by the kernel's lexical walk — under the root; "
                    "so do its staging name and its conflict-copy name (suffixes appended to the string); a path is refused exactly when it is absolute or has a `..` component. "
@@ -160,7 +160,7 @@ PROPS = {
         technique="Lean 4 proof (induction over path components) + syscall-trace correspondence",
     ),
     "C12": dict(
-        modules=["Copia.Props.C12", "Copia.Props.C12b"], namespaces=["Copia.C12"], runner="bb", bb_module="bb_hub",
+        modules=["Copia.Props.C12", "Copia.Props.C12b", "Copia.Props.C12c"], namespaces=["Copia.C12"], runner="bb", bb_module="bb_hub",
         assumptions=_HUB_ASSUME + ["CBOR decoding of a frame body is a parameter of the model (table supplied by the harness from the real ciborium + wire.rs types); ciborium's own allocation/recursion limits are observed under ulimit -v, not proved"],
         trusted_base=_HUB_TB,
         level_text="Kernel-checked theorems for ALL input byte strings: every control-frame buffer ≤ MAX_FRAME; no reply and no tree change without a complete correct prologue; an error reply leaves the tree untouched and the loop "
@@ -170,7 +170,7 @@ PROPS = {
         technique="Lean 4 proof over a fuel-bounded serve loop + byte-stream correspondence against the real server",
     ),
     "C05": dict(
-        modules=["Copia.Props.C05", "Copia.Props.C05b"], namespaces=["Copia.C05"], runner="rust", needs_cli=True,
+        modules=["Copia.Props.C05", "Copia.Props.C05b", "Copia.Props.C05c"], namespaces=["Copia.C05"], runner="rust", needs_cli=True,
         assumptions=_DELTA_ASSUME + ["a hostile copy length makes the real code allocate `len` bytes before reading (resource question, observed not proved)"],
         trusted_base=_DELTA_TB,
         level_text="Kernel-checked theorems for ALL (basis, delta) with no well-formedness hypothesis: success ⇒ H(output) = delta.checksum; success ⇒ validation passed and every read was inside the real basis; "
@@ -206,7 +206,7 @@ PROPS = {
         technique="Lean 4 proof (invariant by induction over operation sequences, omega arithmetic) + differential correspondence on op sequences",
     ),
     "C19": dict(
-        modules=["Copia.Props.C19", "Copia.Props.C19b", "Copia.Props.C19c"], namespaces=["Copia.C19"], runner=["rust", "bb"], bb_module="bb_oneway",
+        modules=["Copia.Props.C19", "Copia.Props.C19b", "Copia.Props.C19c", "Copia.Props.C14b"], namespaces=["Copia.C19"], runner=["rust", "bb"], bb_module="bb_oneway",
         assumptions=COMMON_ASSUME + [
             "paths are valid UTF-8 and normalised relative paths (what `discover_local_files` / `find` produce): `to_string_lossy` and non-canonical PathBuf keys such as `./k` are outside the model",
             "glob_match is modelled in suffix form (a data refinement of the index loop with the same branch order); the index loop itself is tied by the exhaustive correspondence",
@@ -222,7 +222,7 @@ PROPS = {
         technique="Lean 4 proof (soundness/completeness of the backtracking matcher by induction on fuel with a measure; list lemmas for the planner) + exhaustive differential correspondence",
     ),
     "C15": dict(
-        modules=["Copia.Props.C15", "Copia.Props.C15b", "Copia.Props.C15c", "Copia.Props.C15d", "Copia.Props.C04"], namespaces=["Copia.C15", "Copia.C04.dry_run"], runner=["rust", "bb"], bb_module="bb_oneway",
+        modules=["Copia.Props.C15", "Copia.Props.C15b", "Copia.Props.C15c", "Copia.Props.C15d", "Copia.Props.C04", "Copia.Props.C04d", "Copia.Props.C09f"], namespaces=["Copia.C15", "Copia.C04.dry_run"], runner=["rust", "bb"], bb_module="bb_oneway",
         assumptions=COMMON_ASSUME + [
             "names are valid UTF-8 (`to_string_lossy` is the identity)",
             "dry-run clause: decided by the black-box correspondence on the real CLI (see DESIGN.md §5 C15); the theorems here cover exclusion semantics, protection and opt-in deletes",
